@@ -15,16 +15,23 @@ RULE = ("real: generated workflows (1-5 stages, chains/diamonds/fan-out, 1-3 tas
         "(0, every sequence, every gap, max+1, None) and EVERY snapshot position the real EventReplayer is compared with the Lean "
         "`rebuild`; synthetic: random event lists (all 21 event types on all 3 entity kinds, unknown entities, TASK_RETRIED, context "
         "updates, arbitrary snapshot states) appended through the real SqliteEventStore. A case is distinct by its canonical "
-        "(event list, query) and non-trivial when the log has >= 4 events and the query is not the empty prefix.")
+        "(event list, query) and non-trivial when the log has >= 4 events and the query is not the empty prefix. "
+        "PLUS real workflows with pre-declared synthetic STAGE_BEFORE / STAGE_AFTER children (1-3 top-level stages, chain or parallel roots, 0-2 tasks per parent, 1-2 children of either kind "
+        "with one task each, all task outcomes, stageEnabled=false, continuePipelineOnFailure, cancel at a random step, 1-2 workflows per file, FIFO or reordered): 4 fixed + n_real/2 "
+        "generated scenarios through the same run_real (final replayed status vs store for the workflow, every stage - children included - and every task; every as_of, every snapshot "
+        "position, model correspondence of the log); signatures of these runs are prefixed synth:.")
 ASSUMPTIONS = [
     "crash-free runs (the property's quantifier); jump loops are not generated (outside the log per the property text)",
     "no event migration is registered (EventMigrator is the identity, as shipped)",
+    "synthetic-stage workloads: children are ordinary stage entities of the log (refs w<i>s<idx> after the top-level ones); a signature adjudicated as a real defect and awaiting a decision "
+    "(synth_suites.PENDING; now: S10, a parent marked TERMINAL by ContinueParentStage has no stage event) is evaluated but REPORTED only with VERIF_SYNTH_PENDING=1",
     "retry_count values are JSON integers",
     "the snapshot handed to create_workflow_snapshot is the dict returned by rebuild_workflow_state (or, synthetic, any dict with all keys)",
 ]
 TRUSTED_BASE = [
     "events/replay.py fold and rebuild are modelled by hand (Stab.Replay) and tied by the generated fold table (decide) + Mode A",
     "SQLite returns `ORDER BY sequence ASC` rows in strictly increasing sequence; sequence is the INTEGER PRIMARY KEY",
+    "harness/evsrc.py builds the synthetic children as the repo's tests do and attributes every durable status change to the delivered message (SQL triggers + per-delivery bookkeeping)",
     "canonicalisation: ids -> refs, timestamps -> ordinals t<i>, non-scalar JSON values -> sha1 tokens",
     "engine-level theorem replay_agrees_on_covered is over an abstract history of (status write, recorded event) steps; that the handlers "
     "produce such histories is checked only by the Mode-A monitor (replayed status == store status on every generated run)",
@@ -268,6 +275,49 @@ def gen_spec(rng) -> list[dict]:
     return spec
 
 
+def gen_synth_stage_spec(rng) -> list[dict]:
+    """a workflow with pre-declared synthetic STAGE_BEFORE / STAGE_AFTER children (evsrc.Env builds them; refs w<i>s<idx> after the
+    top-level stages).  Implementation-only as far as the ENGINE is concerned; the replay model is about event lists and applies."""
+    n = rng.choice([1, 1, 2, 2, 3])
+    shape = rng.choice(["chain", "roots"])
+    spec = []
+    for i in range(n):
+        sp: dict[str, Any] = {"reqs": [i - 1] if (i and shape == "chain") else [], "tasks": [rng.choice("SSSSSSTFPKCX") for _ in range(rng.choice([0, 1, 1, 2]))]}
+        if rng.random() < 0.15:
+            sp["enabled"] = False
+        if rng.random() < 0.25:
+            sp["cont"] = True
+        spec.append(sp)
+    for par in {rng.randrange(n)} | {i for i in range(n) if rng.random() < 0.3}:
+        nb, na = rng.choice([(1, 0), (0, 1), (1, 1), (1, 1), (2, 0), (0, 2), (2, 1), (1, 2)])
+        spec[par]["synth"] = [{"owner": "B", "tasks": [rng.choice("SSSSSTFKCX")]} for _ in range(nb)] + \
+                             [{"owner": "A", "tasks": [rng.choice("SSSSSTFKCX")]} for _ in range(na)]
+    return spec
+
+
+def gen_synth_stage_scenario(rng) -> dict:
+    nwf = 2 if rng.random() < 0.2 else 1
+    scn: dict[str, Any] = {"kind": "real", "synthetic_stages": True, "wfs": [gen_synth_stage_spec(rng) for _ in range(nwf)], "picks": [], "cancel": {}}
+    scn["reorder"] = rng.choice([0.0, 0.0, 0.3, 0.6])
+    for wi in range(nwf):
+        if rng.random() < 0.35:
+            scn["cancel"][str(wi)] = rng.randint(0, 24)
+    scn["pick_seed"] = rng.randrange(1 << 30)
+    return scn
+
+
+FIXED_SYNTH_STAGE = [
+    {"kind": "real", "synthetic_stages": True, "wfs": [[{"tasks": ["S"], "synth": [{"owner": "B", "tasks": ["S"]}, {"owner": "A", "tasks": ["S"]}]}, {"reqs": [0], "tasks": ["S"]}]],
+     "reorder": 0.0, "cancel": {}, "pick_seed": 1},
+    {"kind": "real", "synthetic_stages": True, "wfs": [[{"tasks": ["S"], "synth": [{"owner": "B", "tasks": ["S"]}, {"owner": "B", "tasks": ["T"]}]}]],
+     "reorder": 0.0, "cancel": {}, "pick_seed": 2},
+    {"kind": "real", "synthetic_stages": True, "wfs": [[{"tasks": ["T"], "synth": [{"owner": "A", "tasks": ["S"]}]}, {"tasks": [], "synth": [{"owner": "A", "tasks": ["F"]}, {"owner": "A", "tasks": ["S"]}]}]],
+     "reorder": 0.3, "cancel": {}, "pick_seed": 3},
+    {"kind": "real", "synthetic_stages": True, "wfs": [[{"tasks": ["S", "S"], "synth": [{"owner": "B", "tasks": ["S"]}, {"owner": "A", "tasks": ["S"]}]}]],
+     "reorder": 0.3, "cancel": {"0": 9}, "pick_seed": 4},
+]
+
+
 def gen_scenario(rng) -> dict:
     nwf = 2 if rng.random() < 0.3 else 1
     scn: dict[str, Any] = {"kind": "real", "wfs": [gen_spec(rng) for _ in range(nwf)], "picks": [], "cancel": {}}
@@ -285,6 +335,10 @@ def run_real(ctx, scn: dict, workdir: Path, lt: bool, verbose: bool = False) -> 
 
     from harness.evsrc import Env
 
+    if scn.get("synthetic_stages") and type(ctx).__name__ != "PrefixCtx":
+        from harness.synth_suites import PrefixCtx
+
+        ctx = PrefixCtx(ctx)      # same oracles; signatures prefixed synth:, counted apart
     before = len(ctx.monitor_hits) + sum(h["count"] for h in ctx.monitor_hits)
     env = Env(workdir, name="c12")
     try:
@@ -350,6 +404,9 @@ def run_real(ctx, scn: dict, workdir: Path, lt: bool, verbose: bool = False) -> 
                     how = ":canceled-by-CancelStage"
                 if kind == "task" and st_status == "SKIPPED" and rp == "RUNNING":
                     how = ":CompleteTask(SKIPPED)"
+                if kind == "stage" and env.writer_of(ident, st_status) == "ContinueParentStage":
+                    # a parent that ContinueParentStage marks failed / canceled because a before- or after-stage failed
+                    how = ":written-by-ContinueParentStage"
                 sig = f"replay-mismatch:{kind}:store={st_status}:replay={rp}{how}"
                 ctx.violation(f"replayed status of {kind} {ref} is {rp}, the store holds {st_status}", sig,
                               robj | {"entity": ref, "store": st_status, "replay": rp, "events_of_entity":
@@ -488,6 +545,15 @@ def _run(ctx, n_real: int, n_syn: int) -> None:
                 run_real(ctx, scn, work, lt)
         for _ in range(n_real):
             run_real(ctx, gen_scenario(ctx.rng), work, lt)
+        # workflows with synthetic before / after stages: same oracle (replayed status == stored status for the workflow, every
+        # stage - children included - and every task; every prefix, every snapshot position)
+        import time
+
+        t0, before = time.time(), ctx.evaluations
+        syn_scn = FIXED_SYNTH_STAGE + [gen_synth_stage_scenario(ctx.rng) for _ in range(max(1, n_real // 2))]
+        for scn in syn_scn:
+            run_real(ctx, scn, work, lt)
+        ctx.extra["synthetic_stage_workloads"] = {"scenarios": len(syn_scn), "queries": ctx.evaluations - before, "wall_s": round(time.time() - t0, 1)}
         for _ in range(n_syn):
             run_synthetic(ctx, gen_synthetic(ctx.rng), work, lt)
     finally:
